@@ -57,7 +57,7 @@ const C13_RULE: &str = "Scenario seeds are SplitMix64(VERIF_SEED, property, k); 
 const C06_RULE: &str = "Scenario seeds are SplitMix64(VERIF_SEED, property, k); each expands into a cluster of 4..7 nodes (equal and unequal stakes, optional per-node timeout skew 0.7-1.5x) in which authorities within the stake budget f crash at arbitrary instants (at boot, before, at, after stabilisation), messages suffer heavy-tail delays and finite stalls before a seeded stabilisation instant (nothing is lost between live nodes, all boot together), and afterwards every message takes less than a twelfth of the smallest round timeout.";
 const C07_RULE: &str = "Three quarters of the scenarios: Scenario seeds are SplitMix64(VERIF_SEED, property, k); each expands into a cluster of 4..7 nodes where one seeded node is cut off (all its connections reset and refused) for a seeded interval while the others keep committing, with or without slow-leader view changes inside the gap; after the heal one peer's consensus port may stay mute towards it, and the wall clock may jump; one other node may crash around the heal, or the author of the first proposal that reaches the lagger after the heal crashes at that instant. One quarter: puppet scenarios (world W2) in which the harness withholds a certified parent, leaves the node's first sync request unanswered and keeps delivering further blocks on top of the same missing parent (timed-out rounds) until the node asks the other peers.";
 
-const PUPPET_RULE: &str = "Scenario seeds are SplitMix64(VERIF_SEED, property, k); each expands into a puppet scenario (world W2): ONE real node booted through Node::new, committee of 4..7 with equal or unequal stakes, all other authorities played by the harness which holds their keys. A seeded policy delivers one action per quiescence step (valid proposals for the node's round with or without TC, equivocating siblings, stale proposals, proposals with missing payloads, votes / timeouts trickled to the node one per step when it is the collector, TCs, timer expiries, replays, sync probes) and, with a per-run probability, one of 33 kinds of invalid variant (flipped signature bits, altered signed fields with the signature kept, transplanted signatures across blocks and message kinds, certificates with repeated / non-member signers, below quorum, over another round, for future rounds).";
+const PUPPET_RULE: &str = "Scenario seeds are SplitMix64(VERIF_SEED, property, k); each expands into a puppet scenario (world W2): ONE real node booted through Node::new, committee of 4..7 with equal or unequal stakes, all other authorities played by the harness which holds their keys. A seeded policy delivers one action per quiescence step (valid proposals for the node's round with or without TC, equivocating siblings, stale proposals, proposals with missing payloads, votes / timeouts trickled to the node one per step when it is the collector, TCs, timer expiries, replays, sync probes) and, with a per-run probability, one of 36 kinds of invalid variant (flipped signature bits, altered signed fields with the signature kept, transplanted signatures across blocks and message kinds, certificates with repeated / non-member signers, below quorum, over another round, for future rounds, padded with an invalid entry after a genuine quorum).";
 
 const C14_RULE: &str = "World W3 (reliable sender): the real ReliableSender against the real network::Receiver with a handler replying ack:<message>. ENUMERATED completely: m in 1..4 messages handed over in a burst or 5 ms apart; no break or one break of the first connection at every frame position (request k lost in flight / request k just received / acknowledgement k lost in flight / acknowledgement k just received); 0..3 refused (re)connection attempts; no cancellation or the handle of message j dropped right after hand-over, 2 ms later (written, acknowledgement in flight) or 50 ms later. ON TOP, seeded exploration: up to 50 messages, several breaks on successive connections, peer-down intervals, cancellations at random instants, short writes, pending writes and split reads.";
 
